@@ -1,6 +1,7 @@
 (* C09_Model.v — trie.Trie (ternary search tree over the bytes of the key),
-   transcribed statement by statement from /repo/trie/trie.go, AFTER the two
-   repairs of fixes/builder-c04c09 (defects #22 and #23 of DESIGN §7):
+   transcribed statement by statement from /repo/trie/trie.go as of commit
+   7fb0178 (line numbers below are those of that file), i.e. AFTER the repairs
+   of defects #22, #23 and #24 of DESIGN §7:
 
      #22  Get:      if x == nil || err != nil || !x.isValid { return v, false }
                     (was: without the isValid test, so every node on the path
@@ -11,6 +12,17 @@
                     (was: prefix + K(n.c), an integer-to-string conversion, i.e.
                     the UTF-8 encoding of the code point n.c: two bytes for
                     every byte >= 0x80)
+     #24  Put:      t.mu.Lock(); defer t.mu.Unlock()
+                    if !t.contains(key) { t.n++ }; t.root = t.root.put(t, key, val, 0, true)
+                    (was: counting through the exported Contains in a critical
+                    section of its own, so that two concurrent Puts of one new
+                    key counted it twice.)  The membership test is now the
+                    unexported helper [contains] (trie.go:100-107), which reads
+                    the node directly; it is transcribed as [contains_locked]
+                    below and is a different function from the exported
+                    Contains (trie.go:76-83), which still goes through Get.
+                    Sequentially both compute the same boolean
+                    (C09_Proofs.contains_locked_eq).
 
    Keys are byte strings, [list Z] with one Z (0..255) per byte; nothing below
    depends on the range.  Values are any type V.  Pointers are only built
@@ -19,7 +31,8 @@
    [n] is the separate counter of the Go struct, updated exactly where the Go
    code updates it.  The result queue (queue.Queue, FIFO) handed to New is
    cleared at the start of Keys/StartsWith, filled by Enqueue and drained by the
-   caller: modelled as the list of enqueued keys in order.  Locks: C01/C02.
+   caller: modelled as the list of enqueued keys in order (the harness puts the
+   drained keys back after every call, so a missing Clear would show).  Locks: C01/C02.
    No proofs in this file.
 
    The second half is the SPECIFICATION: an association list sorted by the
@@ -47,8 +60,12 @@ Section Model.
     | c :: k' => Node c (match k' with [] => true | _ => false end) val Leaf (chain k' val) Leaf
     end.
 
-  (* trie.go:98-117  func (n *node) put(t, key, val, d, isValid);
-     [c] is key[d], [rest] is key[d+1:]  (so d < len(key)-1 iff rest <> []) *)
+  (* trie.go:109-127  func (n *node) put(t, key, val, d, isValid);
+     [c] is key[d], [rest] is key[d+1:]  (so d < len(key)-1 iff rest <> []).
+     The only caller (Put, trie.go:97) passes isValid = true, so the last branch
+     is  n.isValid = true; n.val = val.  The nil receiver case (trie.go:111-114)
+     allocates the node and falls through to the comparison with c == n.c:
+     that is [chain]. *)
   Fixpoint put (n : tst) (c : Z) (rest : key) (val : V) : tst :=
     match n with
     | Leaf => chain (c :: rest) val
@@ -61,9 +78,10 @@ Section Model.
              end
     end.
 
-  (* trie.go:135-153  func (n *node) get(key, d), returning (node, error) — the node
+  (* trie.go:146-163  func (n *node) get(key, d), returning (node, error) — the node
      reached by the whole key, [None] for (nil, ErrorNotFound).  (The inner
-     len(key) == 0 test is unreachable: callers test it first.) *)
+     len(key) == 0 test, trie.go:150-152, is unreachable: all three callers —
+     Get, contains, StartsWith — test for the empty key first.) *)
   Fixpoint get_node (n : tst) (c : Z) (rest : key) : option tst :=
     match n with
     | Leaf => None
@@ -76,7 +94,8 @@ Section Model.
              end
     end.
 
-  (* trie.go:121-133  Get, repaired (#22): (x.val, true) only for a terminal node *)
+  (* trie.go:131-144  Get, repaired (#22): len(key) == 0 -> (zero, false);
+     (x.val, true) only for a terminal node *)
   Definition get (root : tst) (k : key) : option V :=
     match k with
     | [] => None
@@ -87,14 +106,30 @@ Section Model.
         end
     end.
 
-  (* trie.go:76-83 *)
+  (* trie.go:76-83  the exported Contains:
+       if len(key) == 0 { return false }; _, ok := t.Get(key); return ok *)
   Definition contains (root : tst) (k : key) : bool :=
     match k with
     | [] => false
     | _ => match get root k with Some _ => true | None => false end
     end.
 
-  (* trie.go:156-183  the loop of LongestPrefix: [q] is query[i:], the result is [length] *)
+  (* trie.go:100-107  the unexported helper Put calls with the lock held:
+       if len(key) == 0 { return false }
+       x, err := t.root.get(key, 0)
+       return x != nil && err == nil && x.isValid *)
+  Definition contains_locked (root : tst) (k : key) : bool :=
+    match k with
+    | [] => false
+    | c :: rest =>
+        match get_node root c rest with
+        | Some (Node _ valid _ _ _ _) => valid
+        | _ => false
+        end
+    end.
+
+  (* trie.go:175-191  the loop of LongestPrefix: [q] is query[i:], the result is [length];
+     length is moved only at a node with isValid set (trie.go:186-188) *)
   Fixpoint lp_loop (x : tst) (q : key) (i length : nat) : nat :=
     match x with
     | Leaf => length
@@ -110,13 +145,14 @@ Section Model.
 
   Definition EmptyArg : Z := 1.            (* the fmt.Errorf of an empty query / prefix *)
 
+  (* trie.go:166-193  LongestPrefix: error for the empty query, else query[:length] *)
   Definition longest_prefix (root : tst) (query : key) : res key :=
     match query with
     | [] => Err EmptyArg
     | _ => Ok (firstn (lp_loop root query 0 0) query)
     end.
 
-  (* trie.go:218-232  collect, repaired (#23): in-order, appending the raw byte *)
+  (* trie.go:230-242  collect, repaired (#23): in-order, appending the raw byte *)
   Fixpoint collect (n : tst) (prefix : key) : list key :=
     match n with
     | Leaf => []
@@ -127,10 +163,12 @@ Section Model.
         ++ collect r prefix
     end.
 
-  (* trie.go:206-216  Keys: the drained queue (the error is always nil) *)
+  (* trie.go:219-228  Keys: t.q.Clear(), then collect from the root with the empty
+     prefix; the result is the drained queue (the error is always nil) *)
   Definition keys (root : tst) : list key := collect root [].
 
-  (* trie.go:186-204  StartsWith: (error?, drained queue) *)
+  (* trie.go:196-216  StartsWith: (error?, drained queue); t.q.Clear() comes first,
+     so the queue handed back with the error of an empty prefix is empty *)
   Definition starts_with (root : tst) (prefix : key) : bool * list key :=
     match prefix with
     | [] => (true, [])
@@ -168,15 +206,16 @@ Section Model.
 
   Definition step (t : trie) (o : op) : trie * out :=
     match o with
-    | Put k v =>                                              (* trie.go:87-96 *)
-        let n' := if contains (root t) k then n t else n t + 1 in
+    | Put k v =>                                              (* trie.go:87-98, one critical section *)
+        let n' := if contains_locked (root t) k then n t else n t + 1 in   (* if !t.contains(key) { t.n++ } *)
         match k with
-        | [] => ({| root := root t; n := n' |}, OPanic)       (* key[0]: index out of range (outside the property's domain) *)
-        | c :: rest => ({| root := put (root t) c rest v; n := n' |}, ODone)
+        | [] => ({| root := root t; n := n' |}, OPanic)       (* put reads key[0]: index out of range, after t.n++;
+                                                                 the deferred Unlock runs (outside the property's domain) *)
+        | c :: rest => ({| root := put (root t) c rest v; n := n' |}, ODone)   (* t.root = t.root.put(t, key, val, 0, true) *)
         end
-    | Get k => (t, OGet (get (root t) k))
-    | Contains k => (t, OBool (contains (root t) k))
-    | Size => (t, OSize (n t))
+    | Get k => (t, OGet (get (root t) k))                     (* trie.go:131-144 *)
+    | Contains k => (t, OBool (contains (root t) k))          (* trie.go:77-83 *)
+    | Size => (t, OSize (n t))                                (* trie.go:69-74 *)
     | Keys => (t, OKeys (keys (root t)))
     | StartsWith p => (t, let '(e, ks) := starts_with (root t) p in OStarts e ks)
     | LongestPrefix q => (t, OLongest (longest_prefix (root t) q))
